@@ -347,9 +347,26 @@ def process_dict_breadth_first(parent_node, type_name, value, func=lambda x, y: 
     :return (list): the collected child nodes
     """
     # we wrap the keys() in a call to list to prevent concurrent changes
-    return [Node(value=NodeValue(func(type_name, key), value[key], key), parent=parent_node) for key in
-            list(value.keys()) if
+    return [Node(value=NodeValue(func(type_name, key_name(key)), value[key], key_name(key)), parent=parent_node)
+            for key in list(value.keys()) if
             key in value]
+
+
+def key_name(key) -> str:
+    """
+    Get the variable name to use for a dict key.
+
+    Keys can be any hashable value, variable names have to be strings.
+
+    :param key: the dict key
+    :return: the key if it is a string, else its string form
+    """
+    if isinstance(key, str):
+        return key
+    try:
+        return str(key)
+    except Exception:
+        return f'{type(key)}@{id(key)}'
 
 
 def process_list_breadth_first(var_collector: Collector, parent_node: ParentNode, value) -> List[Node]:
